@@ -151,11 +151,26 @@ class Cid(object):
         return len(path_parts) >= 4 and path_parts[-4] == "cutplace" and path_parts[-2:] == ("bin", "pytest")
 
     @staticmethod
+    def _all_subclasses(base_class):
+        """
+        All direct and indirect subclasses of ``base_class``, so that a class
+        inheriting from an existing field format or check can be used too.
+        """
+        result = set()
+        classes_to_process = [base_class]
+        while classes_to_process:
+            for subclass in classes_to_process.pop().__subclasses__():
+                if subclass not in result:
+                    result.add(subclass)
+                    classes_to_process.append(subclass)
+        return result
+
+    @staticmethod
     def _create_name_to_class_map(base_class):
         assert base_class is not None
         result = {}
         # NOTE: we use a ``set`` of subclasses to ignore duplicates.
-        for class_to_process in set(base_class.__subclasses__()):
+        for class_to_process in Cid._all_subclasses(base_class):
             qualified_class_name = class_to_process.__name__
             plain_class_name = qualified_class_name.split(".")[-1]
             clashing_class = result.get(plain_class_name)
